@@ -1196,3 +1196,24 @@ def _m93():
                            buildfile.Section.path)""", """    for i, _d in env.install_dirs.items():
         buildfile.variable(buildfile.path_vars[i], _d,
                            buildfile.Section.path)""")
+
+
+@mutant('walk_skips_symlinked_root')
+def _m94():
+    # path.walk: the "do not follow symlinked directories" test moved to the top of the function
+    from bfg9000 import path as bp
+    _patch_source(bp, 'walk', """    if not exists(top, variables):
+        return
+    dirs, nondirs = listdir(top, variables)
+    yield top, dirs, nondirs
+    for d in dirs:
+        if not islink(d, variables):
+            for i in walk(d, variables):
+                yield i""", """    if not exists(top, variables) or islink(top, variables):
+        return
+    dirs, nondirs = listdir(top, variables)
+    yield top, dirs, nondirs
+    for d in dirs:
+        if True:
+            for i in walk(d, variables):
+                yield i""")
